@@ -118,3 +118,16 @@ Example c07_d2_rejected : parse 0 [91; 91; 49; 32; 50; 93] = JOk JUndef /\ parse
 Proof. split; vm_compute; reflexivity. Qed.
 Example c07_d61_rejected : parse 0 [34; 97; 98; 99] = JOk JUndef /\ parse 0 [34; 97; 92; 34] = JOk JUndef.
 Proof. split; vm_compute; reflexivity. Qed.
+
+(* D92: a high surrogate escape not followed by backslash-u makes the string reader fail (count 0), wherever it stands; before
+   the repair the two units behind it were skipped unread and four more taken as the low half, which could swallow the closing
+   quote of the string.  The input of the finding: the text and the proper prefix that used to be accepted *)
+Theorem c07_lone_high_surrogate_rejected : forall f w ch h1 h2 h3 h4 t k pend st,
+  esc_simple ch = None -> is_u ch = true -> is_high (hex4v h1 h2 h3 h4) = true -> low_escape_follows t = false ->
+  unesc (S f) w (jc_bslash :: ch :: h1 :: h2 :: h3 :: h4 :: t) k pend st = JOk (O, st ++ pend).
+Proof. exact unesc_lone_high_rejected. Qed.
+Print Assumptions c07_lone_high_surrogate_rejected.
+Example c07_d92_rejected :
+  parse 0 [91; 34; 92; 117; 68; 56; 48; 48; 97; 98; 99; 100; 101; 34; 44; 34; 93] = JOk JUndef /\
+  parse 0 [91; 34; 92; 117; 68; 56; 48; 48; 97; 98; 99; 100; 101; 34; 44; 34; 93; 34; 93] = JOk JUndef.
+Proof. split; vm_compute; reflexivity. Qed.
